@@ -1387,6 +1387,11 @@ def meta_check(d, o, meta):
                         exp = None            # sdv has no bool allowed list; scalars are not an allowed list
                     if g != exp:
                         fails.append("C15-meta: %s reports %s=%s for registered %s" % (d["name"], nm, g, reg))
+                # the harness's flags: description (and, for v2, unit) reported as registered
+                names = ("description", "unit") if l[0] == 201 else ("description",)
+                for nm, flag in zip(names, l[i:i + len(names)]):
+                    if flag != 1:
+                        fails.append("C15-meta: %s reports a %s for %s that is not the registered one" % (d["name"], nm, m["path"]))
             elif l[0] == 203:
                 i = 2
                 for _ in range(2):          # value, target
@@ -1412,6 +1417,9 @@ def meta_check(d, o, meta):
                         fails.append("C15-meta: V1GET reports data type %d for %s" % (l[i + 1], E.DATA_TYPES[m["dtype"]]))
                     if want_et and l[i + 2] != KUKSA_ET[m["etype"]]:
                         fails.append("C15-meta: V1GET reports entry type %d for entry type %d" % (l[i + 2], m["etype"]))
+                    if l[-2:] != [1, 1]:
+                        fails.append("C15-meta: V1GET reports description / unit of %s other than registered (or unasked)%s" % (
+                            m["path"], " [description]" if l[-2] != 1 else " [unit]"))
                     if not want_r:
                         continue
                     fam = l[i + 3]
